@@ -110,6 +110,9 @@ func (pe *PolicyEngine) getPoliciesSelectingPod(peer k8s.Peer, direction netv1.P
 // isPeerNodeIP returns true if peer1 is an IP address of a node and peer2 is a pod on that node
 func isPeerNodeIP(peer1, peer2 k8s.Peer) bool {
 	if peer2.PeerType() == k8s.PodType && peer1.PeerType() == k8s.IPBlockType {
+		if hostIP := net.ParseIP(peer2.GetPeerPod().HostIP); hostIP == nil || hostIP.To4() == nil {
+			return false // the host IP is missing, malformed or not IPv4: it cannot be compared with the (IPv4) ip-block peer
+		}
 		ip2, err := netset.IPBlockFromIPAddress(peer2.GetPeerPod().HostIP)
 		if err != nil {
 			return peer1.GetPeerIPBlock().Equal(ip2)
